@@ -27,6 +27,19 @@ def Congruent (S : TSys σ κ) : Prop :=
     (∀ ca, S.succ a = .ok ca → ∃ cb, S.succ b = .ok cb ∧ ca.map S.key = cb.map S.key) ∧
     (∀ e, S.succ a = .error e → ∃ e', S.succ b = .error e')
 
+/-- key congruence relative to an invariant of the explored states (for the model checker: the
+    network settings and ordering mode fixed by the callback, and `pending_timers` mirroring the
+    pending timer events) -/
+def CongruentOn (S : TSys σ κ) (Inv : σ → Prop) : Prop :=
+  ∀ a b, Inv a → Inv b → S.key a = S.key b →
+    S.verdict a = S.verdict b ∧ S.collect a = S.collect b ∧
+    (∀ ca, S.succ a = .ok ca → ∃ cb, S.succ b = .ok cb ∧ ca.map S.key = cb.map S.key) ∧
+    (∀ e, S.succ a = .error e → ∃ e', S.succ b = .error e')
+
+/-- the invariant is preserved by every successor -/
+def InvClosed (S : TSys σ κ) (Inv : σ → Prop) : Prop :=
+  ∀ a cs, Inv a → S.succ a = .ok cs → ∀ c ∈ cs, Inv c
+
 def isFail : Verdict → Bool
   | .fail _ => true
   | _ => false
